@@ -211,7 +211,8 @@ def cases(rng, tier, shard, nshards):
             start = int(rng.integers(1, n - 8))
             knees = np.unique(np.concatenate((knees, np.arange(start, min(start + int(rng.integers(2, 6)), n - 1)))))
         c = {'points': pts, 'family': meta['family'], 'layout': gen.pick_layout(rng, pts), 'knees': knees.astype(int),
-             'linkage': pick(rng, LINKAGES), 't': float(10.0 ** rng.uniform(-2.5, 0)),
+             'linkage': pick(rng, LINKAGES),
+             't': float(10.0 ** rng.uniform(-2.5, 0)) if rng.random() < 0.92 else float(pick(rng, [1.0, 0.5, 0.25, 1.5, 2.0])),
              'mode': pick(rng, MODES + ['corners'])}
         if rng.random() < 0.3:      # history: another ranking mode / linkage / knee subset on the SAME array
             k2 = knees if rng.random() < 0.5 else gen.knee_subset(rng, n, kmin=2, kmax=12)
